@@ -144,12 +144,13 @@ PROPS["C07"] = dict(
 
 PROPS["C19"] = dict(
     module="c19", func="run", level="other", crates=["emmylua_code_analysis"],
-    technique="call-graph reachability + use-classification of TextRange::intersect results (API misuse rule)",
+    technique="call-graph reachability + use-classification of TextRange::intersect results (API misuse rule); key-type check of lookups on the suppression path; CFG dominance of the get_code_list()==None edge over every DisableAll construction",
     text="Decides the half-open matching clause: on every function reachable from the suppression test, no range predicate "
          "treats an empty (touching) intersection as overlap. This is the structural root of 'a diagnostic at column 0 below "
-         "the suppressed line is hidden too'.",
-    note="The construction of each directive's range (+1 line, block range, file scope) is position arithmetic and is not decided, "
-         "i.e. most of the property's scope semantics remain undecided.")
+         "the suppressed line is hidden too'. Also decides two code-scope clauses: the suppression decision never goes through a "
+         "position-keyed lookup that lacks the diagnostic code (R19b: other codes are unaffected), and 'suppress every code' is only "
+         "built when the comment has no code list at all (R19c).",
+    note="The construction of each directive's range (+1 line, block range, file scope) is position arithmetic and is not decided.")
 
 PROPS["C23"] = dict(
     module="c23", func="run", level="other", crates=["emmylua_parser", "emmylua_ls", "emmylua_code_analysis"],
@@ -169,12 +170,14 @@ PROPS["C41"] = dict(
 
 PROPS["C21"] = dict(
     module="c21", func="run", level="other", crates=["emmylua_parser", "emmylua_code_analysis"],
-    technique="table agreement between t! call sites recovered from MIR and the locale files + loop must-pass-through in SyntaxErrorChecker",
+    technique="table agreement between t! call sites recovered from MIR and the locale files + loop must-pass-through in SyntaxErrorChecker + value-source analysis of translate_range components and of the branch conditions of get_file_parse_error",
     text="Decides two clauses: (a) every translated diagnostic/parse message is fully rendered in every locale (placeholders of the "
          "key and of each translation are supplied at the call site), exhaustively over all t! sites of the parser and the "
          "analysis crate; (b) every parse error of a file is forwarded as a diagnostic with its own range and message, and "
-         "codes/severities come from the single constructor.",
-    note="Range-inside-document, start<=end for arbitrary checkers and duplicates are not decided. Trusted: rustc MIR, emmyfacts, PyYAML.")
+         "codes/severities come from the single constructor; the list handed to the checker is the tree's whole error list (R21e: "
+         "get_file_parse_error returns None only for a missing tree or an empty get_errors()); (c) every line/column of a published "
+         "range is taken from LuaDocument::get_line_col alone (R21d).",
+    note="Start<=end for arbitrary checkers' byte ranges and duplicates are not decided. Trusted: rustc MIR, emmyfacts, PyYAML.")
 
 PROPS["C03"] = dict(
     module="c03", func="run", level="other", crates=["emmylua_parser"],
